@@ -77,6 +77,7 @@ def run(ctx):
     ctx.rule("R18.2", "every kind passed to logs::meta is a literal free of ':' '@' newline, or the kind of a parsed record; meta asserts (not debug_asserts) that the text has no newline before writing")
     ctx.rule("R18.3", "attribution: the child redirects stderr to File::create(logname(env, sf.id())) before execvp; the parent pre-creates and redo-log reads logname(env, id) of the same record")
     ctx.rule("R18.4", "the per-target log is replaced (persist) before the 'do' record; the 'done' record is written on every path of record_new_state after save, with rv in its text")
+    ctx.rule("R18.6", "redo-log assembles partial lines: a fragment without a trailing newline is appended to the pending head (never replaces it), and a completed line is emitted together with that head")
     ctx.rule("R18.5", "redo-log holds the log lock (LOG_LOCK_MAGIC + fid, shared) while reading and releases it around recursion")
 
     D = prog.one(r"<logs::Meta<'a> as core::fmt::Display>::fmt|<logs::Meta as core::fmt::Display>::fmt")
@@ -216,6 +217,23 @@ def run(ctx):
         a = op_local(R.blocks[done[0]]["term"]["args"][1])
         tmpl = [s for (_, _, s, nm) in str_consts(R) if nm == "format_args" and s.strip() == "{} {}"]
         ctx.ob("R18.4", "%s|done-text=rv+target" % R.key, a in tl and bool(tmpl), where=ctx.where(R, done[0]), detail="the text is format!(\"{} {}\", rv, target)")
+
+    # ---- R18.6
+    ew = [(sw, t_t, f_t, c) for (sw, t_t, f_t, c) in lba.switches_on_call(r"core::str::<impl str>::ends_with") if (op_const(CL.blocks[c]["term"]["args"][1]) or {}).get("int") == 10]
+    reads = lba.calls(r".*BufRead>?::read_line|std::io::BufRead::read_line")
+    ps_ = lba.calls(r"alloc::string::String::push_str")
+    if ctx.ob("R18.6", "%s|newline-test" % CL.key, len(ew) == 1 and bool(reads) and bool(ps_), where=CL.span, detail="ends_with('\\n') test, read_line and push_str located"):
+        sw, t_t, f_t, c = ew[0]
+        frag_side = [x for x in ps_ if lba.edge_dominates((sw, f_t), x)]
+        common.mpt(ctx, "R18.6", "%s|fragment-appended" % CL.key, CL, [f_t], reads, frag_side, "a fragment without newline is appended (push_str) before the next read",
+                   "a fragment without a trailing newline is not appended to the pending head: a line written in three or more pieces loses its beginning")
+        if frag_side:
+            head = lba.base_local_of_ref(op_local(CL.blocks[frag_side[0]]["term"]["args"][0]))
+            plain = [d for d in lba.defs.get(head, []) if d[0] == "stmt" and not (d[3]["k"] == "use" and op_const(d[3]["op"]))]
+            ctx.ob("R18.6", "%s|head-never-overwritten" % CL.key, not plain, where=CL.span, detail="the pending head is only created empty, appended to, or swapped out" if not plain else "the pending head is overwritten by assignment")
+            full_side = [x for x in ps_ if lba.edge_dominates((sw, t_t), x) and lba.base_local_of_ref(op_local(CL.blocks[x]["term"]["args"][0])) == head]
+            swaps = [x for x in lba.calls(r"core::mem::swap") if lba.edge_dominates((sw, t_t), x)]
+            ctx.ob("R18.6", "%s|completed-line-includes-head" % CL.key, bool(full_side) and bool(swaps), where=CL.span, detail="on a completed line the head gets the rest appended and is swapped out for printing")
 
     # ---- R18.5
     nl = lba.calls(r"state::ProcessState::new_lock")
